@@ -5,6 +5,7 @@ package main
 // as ndjson and validated by TLC against the relation Allowed of spec/ReaderObs.tla.
 
 import (
+	"encoding/binary"
 	"bufio"
 	"bytes"
 	"context"
@@ -238,6 +239,28 @@ func runTruncCase(x *acCtx, c *acCase) {
 					emit(truncObs{Aid: aid, Kind: "flip", K: p, Sec: si + 1, Reader: rk, N: n, Bad: bad, End: end})
 				}
 				iff("flip", p, ends)
+			}
+		}
+	}
+	// the last section announces more bytes than the archive holds (same prefix width): what is there
+	// still hashes to the CID, but the section is not complete
+	if len(c.Scan) > 0 {
+		secStart := int(c.Scan[len(c.Scan)-1].Src)
+		if sl, n := getUvarint(file[secStart:]); n > 0 {
+			for _, d := range []uint64{1, 3} {
+				var pre [10]byte
+				if binary.PutUvarint(pre[:], sl+d) != n {
+					continue
+				}
+				mut := append([]byte{}, file...)
+				copy(mut[secStart:], pre[:n])
+				ends := map[string]string{}
+				for _, rk := range []string{"inspect", "br-next"} {
+					_, _, end, _ := scanOutcome(c, rk, mut)
+					ends[rk] = end
+					x.rep.eval(fmt.Sprintf("%d/inflate/%d/%s", aid, d, rk), true)
+				}
+				iff("inflate", int(d), ends)
 			}
 		}
 	}
